@@ -75,12 +75,9 @@ where
         }
         source
             .try_for_each_triple(|t| {
-                {
-                    let w = &mut self.write;
-                    write_triple(w, t)?;
-                    w.write_all(b".\n")
-                }
-                .map_err(|e| io::Error::new(io::ErrorKind::Other, e))
+                let w = &mut self.write;
+                write_triple(w, t)?;
+                w.write_all(b".\n")
             })
             .map(|()| self)
     }
